@@ -1,5 +1,6 @@
 import PC.Proofs.LocksetSound
 import PC.Gen.Locks
+import PC.Proofs.LockOrder
 /-! C20 — concurrent API use: for the shared maps, records and buffers in `claims`, every access site of the
     current source holds the claimed mutex (table regenerated on every run), and a variable accessed
     only under one common mutex has no data race in any execution (`lockset_sound`).
@@ -78,5 +79,54 @@ theorem unguarded_race : Race [.wr 1 "x", .rd 2 "x"] "x" := by
       rcases this with rfl | rfl <;> simp at hi
     | trans _ _ ih1 _ => exact ih1
   exact key 0 1 h
+
+/-! ### Lock acquisition order (no mutex-only deadlock) -/
+
+/-- rank of a mutex class in the certificate regenerated with the table -/
+def rankOf (c : String) : Nat := ((PC.Gen.Locks.lockRank.find? (·.1 = c)).map (·.2)).getD 0
+
+/-- **The lock acquisition order of the current source is acyclic**: every extracted edge
+    "class `b` may be acquired while class `a` may be held" strictly increases the rank — in
+    particular no function acquires a mutex of a class while one of the same class may be held. -/
+theorem lock_order_acyclic : ∀ e ∈ PC.Gen.Locks.lockEdges, rankOf e.1 < rankOf e.2.1 := by
+  decide
+
+/-- the table is not vacuous: nested acquisitions exist, and they involve the mutexes of the claims -/
+theorem lock_order_nonvacuous :
+    PC.Gen.Locks.lockEdges.length ≥ 5 ∧
+    (PC.Gen.Locks.lockEdges.any fun e => e.1 == "ProjectRunner.runProcMutex" && e.2.1 == "Process.stateMtx") = true := by
+  decide
+
+/-- the mutexes of `claims`, as classes -/
+def claimedClasses : List String :=
+  ["ProjectRunner.runProcMutex", "ProjectRunner.doneProcMutex", "ProjectRunner.statesMutex", "ProjectRunner.logsMutex",
+   "Process.stateMtx", "Process.Mutex", "Process.timeMutex", "ProcessLogBuffer.mx"]
+
+/-- every mutex of the claims is a class the order analysis found in the source -/
+theorem claimed_mutexes_ranked : ∀ c ∈ claimedClasses, c ∈ PC.Gen.Locks.lockClasses := by
+  decide
+
+/-- **No mutex-only deadlock**: threads that wait for a mutex of class `b` while holding one of class
+    `a` only where the table has the edge `(a, b)` (what the extractor establishes for the code it
+    sees) can never form a set in which each waits for a mutex held by another — for any number of
+    threads and objects. Waits on channels, wait groups and condition variables are not mutexes and
+    are outside this theorem. -/
+theorem no_mutex_deadlock (ts : List PC.LockOrder.Thr)
+    (hc : ∀ t ∈ ts, PC.LockOrder.Covered PC.Gen.Locks.lockEdges t) : ¬ PC.LockOrder.Deadlock ts :=
+  PC.LockOrder.table_no_deadlock _ rankOf lock_order_acyclic ts hc
+
+/-- the hypothesis is met by a non-trivial state: shutdown holds `runProcMutex` and waits for a
+    process's state mutex held by that process's goroutine, which waits for nothing -/
+example : ∀ t ∈ ([⟨[⟨"ProjectRunner.runProcMutex", 0⟩], some ⟨"Process.stateMtx", 1⟩⟩,
+                  ⟨[⟨"Process.stateMtx", 1⟩], none⟩] : List PC.LockOrder.Thr),
+    PC.LockOrder.Covered PC.Gen.Locks.lockEdges t := by
+  intro t ht
+  simp only [List.mem_cons, List.mem_nil_iff, or_false] at ht
+  rcases ht with rfl | rfl
+  · intro w hw h hh
+    simp only [Option.some.injEq] at hw; subst hw
+    simp only [List.mem_singleton] at hh; subst hh
+    exact ⟨"ProjectRunner.ShutDownProject", by decide⟩
+  · intro w hw; cases hw
 
 end PC.Props.C20
